@@ -9,7 +9,8 @@
 From Coq Require Import ZArith List Bool Lia Ring Field QArith Qcanon.
 From IBL.lib Require Import PyInt.
 From IBL Require C07.Model C07.Sums C07.Proofs C08.Model.
-From IBL.C05 Require Import Model Proofs Agc Joint Run Stages.
+From IBL.C05 Require Import Model Proofs Agc Joint Run Stages Instances.
+From IBL.C05 Require JointInst.
 Import ListNotations.
 
 Local Notation pos c coll := (positions c coll O).
@@ -377,6 +378,80 @@ Print Assumptions C05_ordered_field_inhabited.
 Example C05_order_axioms_inhabited : order_axioms Qc 0%Qc 1%Qc Qcplus Qcmult qcleb Qcabs.Qcabs.
 Proof. exact order_axioms_Qc. Qed.
 Print Assumptions C05_order_axioms_inhabited.
+
+(* the theorems applied to a concrete, non-trivial input over Qc: all hypotheses are met
+   (3 channels x 2 samples, groups {0,2} and {1}) *)
+Example C05_instance_car_groups :
+  exists out,
+    car Qc 0%Qc 1%Qc Qcplus Qcminus Qcdiv qcleb 0 (Some ex_coll) ex_x = Some out /\
+    median Qc 0%Qc 1%Qc Qcplus Qcdiv qcleb (col Qc 0%Qc 1 (gather [] (positions 7 ex_coll O) out)) = 0%Qc /\
+    gather [] (positions 7 ex_coll O) out
+      = car_base Qc 0%Qc 1%Qc Qcplus Qcminus Qcdiv qcleb 0 (gather [] (positions 7 ex_coll O) ex_x).
+Proof.
+  eexists. split; [reflexivity|]. split.
+  - apply (C05_car_groups_zero_median Qc 0%Qc 1%Qc Qcplus Qcmult Qcminus Qcdiv Qcopp Qcinv qcleb qceqb
+             ordered_field_Qc ex_coll ex_x _ 7%Z 1%nat ex_rect); [discriminate|reflexivity|now left|cbn; lia].
+  - refine (proj1 (proj2 (proj2 (C05_car_groups_honour_operator Qc 0%Qc 1%Qc Qcplus Qcmult Qcminus Qcdiv Qcopp Qcinv
+             qcleb qceqb ordered_field_Qc 0%Z ex_coll ex_x _ _ eq_refl))) 7%Z _); [discriminate|now left].
+Qed.
+
+(* agc's hypotheses on Qc: window [0; 1; 0] (Hann, 3 taps), epsilon = 1/8 *)
+Example C05_instance_agc :
+  let w := [0%Qc; 1%Qc; 0%Qc] in
+  let eps := Q2Qc (1 # 8) in
+  forall i j, (i < length ex_x)%nat -> (j < length (nth i ex_x []))%nat ->
+  Qcmult (nth j (nth i (fst (agc Qc 0%Qc 1%Qc Qcplus Qcmult Qcdiv qceqb Qcabs.Qcabs w eps ex_x)) []) 0%Qc)
+         (nth j (nth i (snd (agc Qc 0%Qc 1%Qc Qcplus Qcmult Qcdiv qceqb Qcabs.Qcabs w eps ex_x)) []) 0%Qc)
+  = nth j (nth i ex_x []) 0%Qc.
+Proof.
+  intros w eps i j Hi Hj.
+  refine (proj1 (proj2 (proj2 (C05_agc_product Qc 0%Qc 1%Qc Qcplus Qcmult Qcminus Qcdiv Qcopp Qcinv qcleb qceqb Qcabs.Qcabs
+            ordered_field_Qc order_axioms_Qc w eps _ _ _ _ ex_x i j Hi Hj)))).
+  - repeat constructor.
+  - split; [discriminate|]. cbn. discriminate.
+  - reflexivity.
+  - discriminate.
+Qed.
+
+(* a spatial high-pass meeting the hypotheses of the kfilt theorems: the first difference
+   along channels preserves the shape and annihilates blocks of equal rows *)
+Example C05_instance_spatial_highpass :
+  (forall b (m : list (list Qc)), length (diffH Qc Qcminus b m) = length m) /\
+  (forall b m r, all_rows Qc m r -> all_zero Qc 0%Qc (diffH Qc Qcminus b m)).
+Proof.
+  split; [apply diffH_length|]. intros b m r. apply diffH_kills. exact Qc_sub_self.
+Qed.
+
+(* all hypotheses of the joint theorem hold together for the Gaussian rationals Qc[i], n = 4,
+   w k = i^k, integer shifts; the theorem applied to NP1's table, 3 channels, the stripe
+   2 + ((1+i) w^j + c.c.) *)
+Example C05_instance_joint :
+  C07.Proofs.setting JointInst.G JointInst.g0 JointInst.g1 JointInst.gadd JointInst.gmul JointInst.gopp
+    JointInst.ginv JointInst.gconj 4 JointInst.w4 /\
+  ordered_field JointInst.G JointInst.g0 JointInst.g1 JointInst.gadd JointInst.gmul
+    (C07.Sums.fsub JointInst.G JointInst.gadd JointInst.gopp) (C07.Sums.fdiv JointInst.G JointInst.gmul JointInst.ginv)
+    JointInst.gopp JointInst.ginv JointInst.gleb JointInst.geqb /\
+  exists x2,
+    C07.Model.fshift_rows JointInst.G JointInst.g0 JointInst.g1 JointInst.gadd JointInst.gmul JointInst.ginv
+      JointInst.gconj 4 JointInst.w4
+      (map (fun k => table JointInst.G 4 Z JointInst.phase4 k)
+           (firstn 3 (map (C08.Model.shift_closed C08.Model.NP1) (zrange C08.Model.NC))))
+      (map (fun c => recorded JointInst.G JointInst.gadd JointInst.gmul JointInst.gconj 4 JointInst.w4 Z Z.opp
+                       JointInst.phase4 JointInst.inst_dc JointInst.inst_terms
+                       (C08.Model.shift_closed C08.Model.NP1 c)) (zrange 3)) = Some x2 /\
+    length x2 = 3%nat /\
+    all_zero JointInst.G JointInst.g0
+      (car_base JointInst.G JointInst.g0 JointInst.g1 JointInst.gadd
+         (C07.Sums.fsub JointInst.G JointInst.gadd JointInst.gopp)
+         (C07.Sums.fdiv JointInst.G JointInst.gmul JointInst.ginv) JointInst.gleb 0 x2) /\
+    all_zero JointInst.G JointInst.g0
+      (car_base JointInst.G JointInst.g0 JointInst.g1 JointInst.gadd
+         (C07.Sums.fsub JointInst.G JointInst.gadd JointInst.gopp)
+         (C07.Sums.fdiv JointInst.G JointInst.gmul JointInst.ginv) JointInst.gleb 1 x2).
+Proof.
+  split; [exact JointInst.G_setting|]. split; [exact JointInst.G_ordered_field|exact JointInst.joint_instance].
+Qed.
+Print Assumptions C05_instance_joint.
 
 (* the model run on concrete inputs (Q instance of Run.v) *)
 Local Open Scope Z_scope.
